@@ -44,6 +44,10 @@ type World struct {
 	P4Fault  *P4FaultPlan
 	LastRpcs int // Write RPCs the switch received during the last request
 	conc     *concRec
+	// KillAtWrite, when > 0, makes the datapath server kill the agent (SIGKILL) when it receives the K-th command /
+	// Write RPC of the next request, before applying it (one shot): a crash in the middle of a request
+	KillAtWrite int
+	killHit     bool
 	// UeBySeid: UE address of each session (C13 on UP4: a datapath report is a digest carrying the UE address)
 	UeBySeid map[uint64]uint32
 	Agent         *agent.Agent
